@@ -448,8 +448,64 @@ def judge(ctx, scs, results):
     return out
 
 
+def rerun_scenarios(seed, n):
+    """a generator whose list is a variable runs a second time after a back, over another list (shorter, empty, longer): the second run opens the
+    groups of the new list and nothing of the first run"""
+    scs = []
+    for i in range(n):
+        rng = Rng(seed * 479001599 + i)
+        first = [f"u{q}" for q in range(rng.range(1, 3))]
+        second = rng.pick([[], [], ["w0"], ["w0", "w1", "w2"]])
+        uses = rng.pick([PAR, SEQ])
+        w = {"id": "m1", "inputs": {"items": first},
+             "steps": [{"id": "s1", "acts": [{"id": "a0", "uses": gen.IRQ, "key": "k0"}]},
+                       {"id": "s2", "acts": [{"id": "g", "uses": uses, "params": {"in": "{{ items }}", "acts": [{"uses": gen.IRQ, "key": "gk"}]}}]},
+                       {"id": "s3", "acts": [{"id": "a9", "uses": gen.IRQ, "key": "k9"}]}]}
+        ops = [["deploy", 0], ["start", "m1", {"pid": "p1"}], ["runall"], ["act", "next", "p1", {"nid": "a0", "k": 0}, {}], ["runall"],
+               ["act", "back", "p1", {"open": 0}, {"to": "s1"}], ["runall"],
+               ["act", "set_process_vars", "p1", {"open": 0}, {"items": second}], ["runall"],
+               ["act", "next", "p1", {"nid": "a0", "k": 1}, {}], ["runall"]]
+        for _ in range(len(second) + 3):
+            ops += [["act", "next", "p1", {"open": 0}, {}], ["runall"]]
+        scs.append({"id": f"c16-rerun-{i}", "config": {"keep": True, "dump_each": True}, "models": [w], "ops": ops, "first": first, "second": second, "uses": uses})
+    return scs
+
+
+def judge_rerun(ctx, scs):
+    results = ctx.harness("run", [{k: v for k, v in sc.items() if k not in ("first", "second", "uses")} for sc in scs], tag="rr")
+    exp = ctx.driver([{"cmd": "c16.expand", "items": [json.dumps(v) for v in sc["second"]], "acts": ["gk"]} for sc in scs], tag="dre")
+    for sc, res, ex in zip(scs, results, exp):
+        ctx.cov["evaluations"] += 1
+        if res.get("panic"):
+            ctx.violation("C16|engine-panic", f"engine panicked: {str(res['panic'])[:120]}", {"scenario": sc})
+            continue
+        # groups opened by the second run: `gk` interrupts created after the second answer of a0
+        second_start = next((j for j, op in enumerate(sc["ops"]) if op[0] == "act" and op[3] == {"nid": "a0", "k": 1}), None)
+        opened = Counter()
+        for st in res.get("steps", []):
+            if second_start is None or st["op"] < second_start:
+                continue
+            for o in st["obs"]:
+                if o.get("k") == "gen" and o.get("key") == "gk" and o.get("state") == "created":
+                    opt = (o.get("inputs") or {}).get("options") or {}
+                    opened[(opt.get("$index"), json.dumps(opt.get("$value")))] += 1
+        want = Counter((idx, val) for g in ex.get("groups", []) for _, idx, val in g)
+        finished = any(o.get("k") == "pev" and o.get("ev") == "complete" for st in res.get("steps", []) for o in st["obs"])
+        ok_back = any(o.get("k") == "res" and o.get("ok") for st in res.get("steps", []) if sc["ops"][st["op"]][:2] == ["act", "back"] for o in st["obs"])
+        if not ok_back:
+            continue
+        if opened != want:
+            ctx.violation(f"C16|generated-acts-count|rerun|{sc['uses'].split('.')[-1]}", f"second run of the generator over {sc['second']} (first run over {sc['first']}) opened {sorted(opened.items())}, "
+                          f"the expansion of the new list is {sorted(want.items())}", {"scenario": sc})
+        elif not finished:
+            ctx.violation(f"C16|generator-does-not-complete|rerun", f"second run of the generator over {sc['second']}: every interrupt was answered but the process did not finish", {"scenario": sc})
+        else:
+            ctx.nontrivial(["rerun", sc["first"], sc["second"], sc["uses"]])
+
+
 def run(ctx):
     ctx.check_theorems("ActsModel.Props.C16")
+    judge_rerun(ctx, rerun_scenarios(ctx.seed, 24 if ctx.tier == "quick" else 400))
     n = 250 if ctx.tier == "quick" else 5000
     scs = [gen_scenario(ctx.seed, i, ctx.tier) for i in range(n)]
     def batches():
